@@ -1,5 +1,5 @@
 (* C01, liveness half, part 6: the theorem. Along every admissible history
-   (cookie-following clients, no faults, crashes, GetAndDelete or cache loss, the
+   (cookie-following clients with any scripts, no faults, crashes or cache loss, the
    clock not running backwards, configuration changes keeping the codec and the
    peer/agent rules) every request for which the promise is due — cache enabled,
    sane durations, less than SessionExpiry (minus the codec's resolution) after
@@ -171,7 +171,7 @@ Proof. vm_compute. repeat split. Qed.
 Lemma live_hop_meaning n b j h :
   live_hop n b j h =
   match h with
-  | HReq _ => c01_hop false h
+  | HReq _ => c01_hop h
   | HWait d => (0 <=? d)%Z
   | HPurge _ pl | HLogoutUser _ _ pl | HRefreshUser _ _ pl => nil_plan pl
   | HDropCache | HRestart => false
